@@ -1,5 +1,6 @@
 import LoraVerif.Props.C09
 import LoraVerif.Props.TieA.C09
+import LoraVerif.Props.TieA.PlanSelect
 /-!
 # C09 — the module `./check C09` builds: the property theorems (`Props/C09.lean`) together with the
 tie-A equalities between the hand model's constants and the items regenerated from the current
